@@ -93,8 +93,15 @@ class FramingModel:
         self.nr = inline.inlined(facts, self.nr0.id, stop=lambda d: facts.fns[d].rec.get("local") and not same(d), extern_ok=Q.std_small)
         f = self.nr
         # the socket reader parameter: the parameter of the type-parameter type that implements Read (`R`)
-        self.src = [i for i in range(1, f.argc + 1) if f.locals[i]["ty"] == "R"]
-        self.wr = [i for i in range(1, f.argc + 1) if f.locals[i]["ty"] == "W"]
+        # (a type parameter of the function: named, or written `impl Read + ..` / `impl Write + ..` in argument position)
+        def tparam(i):
+            ty = f.locals[i]["ty"]
+            return ty.startswith("impl ") or (re.match(r"^[A-Z]\w*$", ty) is not None and ty not in facts.adts)
+        cand = [i for i in range(1, f.argc + 1) if tparam(i)]
+        self.src = [i for i in cand if f.locals[i]["ty"] == "R" or re.match(r"^impl (.*\b)?Read\b", f.locals[i]["ty"])]
+        self.wr = [i for i in cand if f.locals[i]["ty"] == "W" or re.match(r"^impl (.*\b)?Write\b", f.locals[i]["ty"])]
+        if len(self.src) != 1 and len(cand) == 2:
+            self.src, self.wr = cand[:1], cand[1:]
         if len(self.src) != 1:
             raise CheckerError("framing rules: socket reader parameter of new_request not identified")
         self.src = self.src[0]
